@@ -25,6 +25,8 @@ func family(name, bounds string) []*gen.Prog {
 	switch name {
 	case "taint":
 		return gen.Enumerate(gen.ParseBounds(bounds), nil)
+	case "guard":
+		return gen.EnumerateGuards(gen.ParseBounds(bounds))
 	}
 	panic("unknown family " + name)
 }
@@ -144,6 +146,9 @@ func cfgSet(name string) []drv.Cfg {
 		return []drv.Cfg{{}, {FieldSensitive: true}, {OnDemand: true}, {FieldSensitive: true, OnDemand: true}, {PkgFilter: "main"}, {PkgFilter: "nomatch"}}
 	case "default":
 		return []drv.Cfg{{}}
+	case "c02":
+		return []drv.Cfg{{Sanitizers: true, Validators: true}, {Sanitizers: true, Validators: true, FieldSensitive: true},
+			{Sanitizers: true, Validators: true, OnDemand: true}, {Sanitizers: true, Validators: true, FieldSensitive: true, OnDemand: true}}
 	}
 	panic("unknown cfg set " + name)
 }
